@@ -365,6 +365,7 @@ impl Srv {
     pub fn start(dir: &Path, cfg: &SrvCfg) -> Result<Srv, String> {
         rmrf(dir);
         std::fs::create_dir_all(dir).unwrap();
+        iohook::srv_time_reset();
         let mut c = Config::default();
         c.path(dir).concurrency(4).max_file_size(cfg.max_file_size).merge_policy(VerifMergePolicy::Never);
         c.merge_threshold_small_file(u64::MAX);
@@ -568,6 +569,37 @@ impl Srv {
 
     pub fn epoch(&self) -> u64 {
         iohook::srv_epoch()
+    }
+
+    /// Let `ms` milliseconds pass for the server: every timer its thread sleeps on fires as if that
+    /// much time had gone by. A server that sleeps on no timer (the pinned one, when idle) does not
+    /// notice. Returns how much of the time was actually consumed by timers.
+    pub fn let_time_pass(&self, ms: i64) -> i64 {
+        if iohook::srv_idle_without_timer() {
+            return 0;
+        }
+        let e0 = self.epoch();
+        iohook::srv_advance_time(ms);
+        // a thread sleeping on a timer looks for the request every 2 ms
+        let t0 = Instant::now();
+        while iohook::srv_time_budget_left() > 0 && t0.elapsed() < Duration::from_millis(8) {
+            std::thread::sleep(Duration::from_micros(200));
+        }
+        let mut last = iohook::srv_time_budget_left();
+        // keep going while timers keep consuming it (a periodic timer takes several rounds)
+        let t1 = Instant::now();
+        while last > 0 && last < ms && t1.elapsed() < Duration::from_secs(2) {
+            std::thread::sleep(Duration::from_millis(3));
+            let now = iohook::srv_time_budget_left();
+            if now == last {
+                break;
+            }
+            last = now;
+        }
+        let left = iohook::srv_time_budget_left();
+        iohook::srv_time_reset();
+        self.quiesce(e0);
+        ms - left
     }
 
     /// Shut the server down and release everything. Returns false if `run()` did not return.
@@ -928,7 +960,13 @@ pub fn c06_case(dir: &Path, word: &[Req], delivery: &Delivery) -> Result<String,
             } else {
                 "wrong-reply"
             };
-            return Err((class.into(), format!("replies {:?} ({} bytes), expected {:?} ({} bytes)", show_frames(&gf), got.len(), show_frames(&ef), expected.len())));
+            let msg = if gf.len().max(ef.len()) > 12 {
+                let d = gf.iter().zip(ef.iter()).position(|(x, y)| x != y).unwrap_or(gf.len().min(ef.len()));
+                format!("{} replies ({} bytes), expected {} ({} bytes); first difference at reply #{}: got {:?}, expected {:?}", gf.len(), got.len(), ef.len(), expected.len(), d + 1, gf.get(d).map(|f| show_frames(std::slice::from_ref(f))), ef.get(d).map(|f| show_frames(std::slice::from_ref(f))))
+            } else {
+                format!("replies {:?} ({} bytes), expected {:?} ({} bytes)", show_frames(&gf), got.len(), show_frames(&ef), expected.len())
+            };
+            return Err((class.into(), msg));
         }
         Ok(format!("{} replies", word.len()))
     })();
@@ -1046,6 +1084,7 @@ fn c06(job: &Job, sh: &mut Shard, t0: Instant) {
     // long keys; thousands of requests on one connection
     {
         let mut sw: Vec<Vec<Req>> = vec![];
+        let mut count_words: Vec<Vec<Req>> = vec![];
         let a = || b"a".to_vec();
         let b_ = || b"b".to_vec();
         for v in [&b"$5\r\nhello\r\n"[..], b"-ERR x", b"+OK", b":1", b"*2\r\n$1\r\na\r\n$1\r\nb\r\n", b"$-1", b"\r\n\r\n", b"$", b"-", b"nil", b"0", b"-1", b"\xff\xfe", b"*3\r\n$3\r\nSET\r\n$1\r\na\r\n$1\r\nz\r\n"] {
@@ -1068,6 +1107,15 @@ fn c06(job: &Job, sh: &mut Shard, t0: Instant) {
             w.push(Req::Del(twice));
             sw.push(w);
         }
+        // DEL of n present keys for EVERY n in a range (the count is the only integer the server sends)
+        let counts: Vec<usize> = if job.tier == Tier::Quick { (1..=40).chain(250..=270).chain(510..=515).chain([1000, 1024, 1025]).collect() } else { (1..=1100).chain([4095, 4096, 4097, 65_535, 65_536, 65_537]).collect() };
+        for n in counts {
+            let kk = |i: usize| format!("d{:05}", i).into_bytes();
+            let mut w: Vec<Req> = (0..n).map(|i| Req::Set(kk(i), b"1".to_vec())).collect();
+            w.push(Req::Del((0..n).map(kk).collect()));
+            w.push(Req::Get(kk(0)));
+            count_words.push(w);
+        }
         let ls: Vec<usize> = if job.tier == Tier::Quick { (8176..8196).step_by(1).collect() } else { (8160..8210).chain(16_360..16_400).chain(65_520..65_545).collect() };
         for l in ls {
             sw.push(vec![Req::Set(a(), vec![b'q'; l]), Req::Get(a()), Req::Get(a()), Req::Set(b_(), b"x".to_vec()), Req::Get(b_()), Req::Get(a())]);
@@ -1088,6 +1136,9 @@ fn c06(job: &Job, sh: &mut Shard, t0: Instant) {
                 }
             }
             sw.push(w);
+        }
+        for w in count_words {
+            cases.push((w, Delivery::Whole));
         }
         for w in sw {
             cases.push((w.clone(), Delivery::Whole));
@@ -1147,7 +1198,7 @@ fn c06(job: &Job, sh: &mut Shard, t0: Instant) {
             Err((class, msg)) => {
                 // confirm once before reporting
                 match c06_case(&dir, &w, &d) {
-                    Err((c2, _)) if c2 == class => sh.violate(Violation { class: format!("C06:{}", class), msg: format!("{} | requests {:?} delivered {:?}", msg, w.iter().map(|r| r.show()).collect::<Vec<_>>(), d), case: case.clone() }),
+                    Err((c2, _)) if c2 == class => sh.violate(Violation { class: format!("C06:{}", class), msg: format!("{} | requests {} delivered {:?}", msg, if w.len() > 12 { format!("[{} requests: {:?} ... {:?}]", w.len(), w[..3].iter().map(|r| r.show()).collect::<Vec<_>>(), w[w.len() - 2..].iter().map(|r| { let t = r.show(); if t.len() > 80 { format!("{}...", &t[..80]) } else { t } }).collect::<Vec<_>>()) } else { format!("{:?}", w.iter().map(|r| r.show()).collect::<Vec<_>>()) }, d), case: case.clone() }),
                     other => sh.machinery_errors.push(format!("C06 violation {} not reproduced ({:?}) for {}", class, other.map_err(|e| e.0), case["word_text"])),
                 }
             }
